@@ -13,7 +13,7 @@ the statement's tokens.  Braces are handled by the token view (`lexScopes`).
 namespace PycModel.StmtSkel
 open PycModel PycModel.View PycModel.OperandId PycModel.FullExpr
 
-variable {ty : String → Bool}
+variable {env : Env}
 
 theorem bnd {α β} (m : P α) (f : α → P β) (s : PState) :
     (m >>= f) s = match m s with | .ok a s' => f a s' | .err e => .err e := rfl
@@ -182,9 +182,9 @@ def exprStmtM (F : Nat) : P Val := do
 
 /-- the common prefix of `_parse_statement` for a head token that is neither `case`/`default` nor
 an identifier: the label test is skipped -/
-theorem stmt_head (F : Nat) (s : PState) (k v : String) (toks : List Tk) (hs : SeesT ty s ((k, v) :: toks))
+theorem stmt_head (F : Nat) (s : PState) (k v : String) (toks : List Tk) (hs : SeesT env s ((k, v) :: toks))
     (hk : k ≠ "CASE" ∧ k ≠ "DEFAULT" ∧ k ≠ "ID") :
-    ∃ s1, SeesT ty s1 ((k, v) :: toks) ∧ s1.idx = s.idx ∧
+    ∃ s1, SeesT env s1 ((k, v) :: toks) ∧ s1.idx = s.idx ∧
       run (F + 1) .statement s =
         (if k == "LBRACE" then run F .compoundStatement
          else if k == "IF" || k == "SWITCH" then run F .selectionStatement
@@ -207,8 +207,8 @@ theorem stmt_head (F : Nat) (s : PState) (k v : String) (toks : List Tk) (hs : S
 
 /-- `_parse_statement` on an identifier that is not a label: an expression statement -/
 theorem stmt_id_head (F : Nat) (s : PState) (x : String) (t2 : Tk) (toks : List Tk)
-    (hs : SeesT ty s (("ID", x) :: t2 :: toks)) (h2 : t2.1 ≠ "COLON") :
-    ∃ s1, SeesT ty s1 (("ID", x) :: t2 :: toks) ∧ s1.idx = s.idx ∧ run (F + 1) .statement s = exprStmtM F s1 := by
+    (hs : SeesT env s (("ID", x) :: t2 :: toks)) (h2 : t2.1 ≠ "COLON") :
+    ∃ s1, SeesT env s1 (("ID", x) :: t2 :: toks) ∧ s1.idx = s.idx ∧ run (F + 1) .statement s = exprStmtM F s1 := by
   obtain ⟨s1, h1, hs1, hi1, _⟩ := peekType_spec s _ hs
   obtain ⟨s2, hp2, hs2, _, hi2, _⟩ := peekK_spec 1 s1 _ t2 hs1 rfl
   refine ⟨s2, hs2, by omega, ?_⟩
@@ -218,9 +218,9 @@ theorem stmt_id_head (F : Nat) (s : PState) (x : String) (t2 : Tk) (toks : List 
   rfl
 
 /-- a loop / branch body that does not start with a pragma is a plain statement -/
-theorem pcs_to_stmt (F : Nat) (s : PState) (k v : String) (toks : List Tk) (hs : SeesT ty s ((k, v) :: toks))
+theorem pcs_to_stmt (F : Nat) (s : PState) (k v : String) (toks : List Tk) (hs : SeesT env s ((k, v) :: toks))
     (hk : k ≠ "PPPRAGMA" ∧ k ≠ "_PRAGMA") :
-    ∃ s1, SeesT ty s1 ((k, v) :: toks) ∧ s1.idx = s.idx ∧
+    ∃ s1, SeesT env s1 ((k, v) :: toks) ∧ s1.idx = s.idx ∧
       run (F + 1) .pragmacompOrStatement s = run F .statement s1 := by
   obtain ⟨s1, h1, hs1, hi1, _⟩ := peekType_spec s _ hs
   refine ⟨s1, hs1, hi1, ?_⟩
@@ -236,12 +236,12 @@ theorem head_starts_expr {L : Nat} {e : X} (hw : WFX L e) :
 
 /-- an expression statement -/
 theorem exprStmt_ok (e : X) (hwf : WFX 0 e) (s : PState) (rest : List Tk)
-    (hs : SeesT ty s (e.flat ++ ("SEMI", ";") :: rest)) (F : Nat) (hF : e.fuel ≤ F) :
-    ∃ s', exprStmtM F s = .ok (e.val s.idx) s' ∧ SeesT ty s' rest ∧ s'.idx = s.idx + e.ntoks + 1 := by
+    (hs : SeesT env s (e.flat ++ ("SEMI", ";") :: rest)) (F : Nat) (hF : e.fuel ≤ F) :
+    ∃ s', exprStmtM F s = .ok (e.val s.idx) s' ∧ SeesT env s' rest ∧ s'.idx = s.idx + e.ntoks + 1 := by
   obtain ⟨t, r, hfl, hst⟩ := head_starts_expr hwf
-  have hs0 : SeesT ty s (t :: (r ++ ("SEMI", ";") :: rest)) := by simpa [hfl] using hs
+  have hs0 : SeesT env s (t :: (r ++ ("SEMI", ";") :: rest)) := by simpa [hfl] using hs
   obtain ⟨s1, h1, hs1, hi1, _⟩ := peekType_spec s _ hs0
-  have hs1' : SeesT ty s1 (e.flat ++ ("SEMI", ";") :: rest) := by simpa [hfl] using hs1
+  have hs1' : SeesT env s1 (e.flat ++ ("SEMI", ";") :: rest) := by simpa [hfl] using hs1
   obtain ⟨s2, h2, hs2, hi2⟩ := parse_full e hwf s1 ("SEMI", ";") rest stopX_semi hs1' F hF
   obtain ⟨s3, h3, hs3, hi3⟩ := expect_same s2 "SEMI" ";" rest hs2
   refine ⟨s3, ?_, hs3, by omega⟩
@@ -252,8 +252,8 @@ theorem exprStmt_ok (e : X) (hwf : WFX 0 e) (s : PState) (rest : List Tk)
   simp [exprStmtM, bnd, startsExpression, h1, hst, h2, h3, hn, pur]
 
 /-- the empty statement -/
-theorem emptyStmt_ok (s : PState) (rest : List Tk) (hs : SeesT ty s (("SEMI", ";") :: rest)) (F : Nat) :
-    ∃ s', exprStmtM F s = .ok (mk .EmptyStatement (tc s.idx) []) s' ∧ SeesT ty s' rest ∧ s'.idx = s.idx + 1 := by
+theorem emptyStmt_ok (s : PState) (rest : List Tk) (hs : SeesT env s (("SEMI", ";") :: rest)) (F : Nat) :
+    ∃ s', exprStmtM F s = .ok (mk .EmptyStatement (tc s.idx) []) s' ∧ SeesT env s' rest ∧ s'.idx = s.idx + 1 := by
   obtain ⟨s1, h1, hs1, hi1, _⟩ := peekType_spec s _ hs
   obtain ⟨s2, h2, hs2, hi2⟩ := expect_same s1 "SEMI" ";" rest hs1
   refine ⟨s2, ?_, hs2, by omega⟩
@@ -373,29 +373,29 @@ theorem S.val_node : ∀ (st : S) (n : Nat), ∃ c co fs, st.val n = .node c co 
   | .label .., _ => ⟨_, _, _, rfl⟩
 
 /-- what the theorem says about one statement -/
-def SOK (ty : String → Bool) (st : S) : Prop :=
-  ∀ (s : PState) (rest : List Tk) (F : Nat), WFS st → SeesT ty s (st.flat ++ rest) →
+def SOK (env : Env) (st : S) : Prop :=
+  ∀ (s : PState) (rest : List Tk) (F : Nat), WFS st → SeesT env s (st.flat ++ rest) →
     (st.openIf = true → ∀ k v r, rest = (k, v) :: r → k ≠ "ELSE") → st.fuel ≤ F →
-    ∃ s', run F .statement s = .ok (st.val s.idx) s' ∧ SeesT ty s' rest ∧ s'.idx = s.idx + st.ntoks
+    ∃ s', run F .statement s = .ok (st.val s.idx) s' ∧ SeesT env s' rest ∧ s'.idx = s.idx + st.ntoks
 
 /-- ... and about the items of a block, up to its closing brace -/
-def SLOK (ty : String → Bool) (l : SL) : Prop :=
+def SLOK (env : Env) (l : SL) : Prop :=
   ∀ (acc : List Val) (s : PState) (rest : List Tk) (F : Nat), WFSL l →
-    SeesT ty s (l.flat ++ ("RBRACE", "}") :: rest) → l.fuel ≤ F →
+    SeesT env s (l.flat ++ ("RBRACE", "}") :: rest) → l.fuel ≤ F →
     ∃ s', run F (.blockItemListLoop acc) s = .ok (acc ++ SL.vals s.idx l) s' ∧
-      SeesT ty s' (("RBRACE", "}") :: rest) ∧ s'.idx = s.idx + l.ntoks
+      SeesT env s' (("RBRACE", "}") :: rest) ∧ s'.idx = s.idx + l.ntoks
 
 /-- a statement used as the body of `if` / `else` / a loop -/
-theorem body_ok (st : S) (h : SOK ty st) (s : PState) (rest : List Tk) (F : Nat) (hwf : WFS st)
-    (hs : SeesT ty s (st.flat ++ rest)) (hel : st.openIf = true → ∀ k v r, rest = (k, v) :: r → k ≠ "ELSE")
+theorem body_ok (st : S) (h : SOK env st) (s : PState) (rest : List Tk) (F : Nat) (hwf : WFS st)
+    (hs : SeesT env s (st.flat ++ rest)) (hel : st.openIf = true → ∀ k v r, rest = (k, v) :: r → k ≠ "ELSE")
     (hF : st.fuel + 1 ≤ F) :
-    ∃ s', run F .pragmacompOrStatement s = .ok (st.val s.idx) s' ∧ SeesT ty s' rest ∧ s'.idx = s.idx + st.ntoks := by
+    ∃ s', run F .pragmacompOrStatement s = .ok (st.val s.idx) s' ∧ SeesT env s' rest ∧ s'.idx = s.idx + st.ntoks := by
   obtain ⟨G, rfl⟩ : ∃ G, F = G + 1 := ⟨F - 1, by omega⟩
   obtain ⟨t, r, hfl, hth⟩ := S.head st hwf
   obtain ⟨hp1, hp2, _⟩ := stmtHeads_facts t.1 hth
-  have hs0 : SeesT ty s ((t.1, t.2) :: (r ++ rest)) := by simpa [hfl] using hs
+  have hs0 : SeesT env s ((t.1, t.2) :: (r ++ rest)) := by simpa [hfl] using hs
   obtain ⟨s1, hs1, hi1, heq⟩ := pcs_to_stmt G s t.1 t.2 _ hs0 ⟨hp1, hp2⟩
-  have hs1' : SeesT ty s1 (st.flat ++ rest) := by simpa [hfl] using hs1
+  have hs1' : SeesT env s1 (st.flat ++ rest) := by simpa [hfl] using hs1
   obtain ⟨s2, h2, hs2, hi2⟩ := h s1 rest G hwf hs1' hel (by omega)
   exact ⟨s2, by rw [heq, h2, hi1], hs2, by omega⟩
 
@@ -466,16 +466,16 @@ theorem id_second {L : Nat} {e : X} (hwf : WFX L e) : ∀ x r, e.flat = ("ID", x
     exact id_second_app a.flat (("COMMA", ",") :: b.flat) ("COMMA", ",") _ rfl (by decide) iha (flat_ne_nil ha) x r'
       (by simpa [X.flat, List.append_assoc] using h)
 
-theorem sok_expr (e : X) : SOK ty (.expr e) := by
+theorem sok_expr (e : X) : SOK env (.expr e) := by
   intro s rest F hwf hs _ hF
   cases hwf with
   | expr _ hwe =>
     obtain ⟨G, rfl⟩ : ∃ G, F = G + 1 := ⟨F - 1, by simp only [S.fuel] at hF; omega⟩
     simp only [S.fuel] at hF
-    have hs0 : SeesT ty s (e.flat ++ ("SEMI", ";") :: rest) := by simpa [S.flat] using hs
+    have hs0 : SeesT env s (e.flat ++ ("SEMI", ";") :: rest) := by simpa [S.flat] using hs
     obtain ⟨t, r, hfl, ht, _⟩ := FullExpr.flat_heads hwe
     -- reach the expression-statement branch
-    have hreach : ∃ s1, SeesT ty s1 (e.flat ++ ("SEMI", ";") :: rest) ∧ s1.idx = s.idx ∧
+    have hreach : ∃ s1, SeesT env s1 (e.flat ++ ("SEMI", ";") :: rest) ∧ s1.idx = s.idx ∧
         run (G + 1) .statement s = exprStmtM G s1 := by
       by_cases hid : t.1 = "ID"
       · obtain ⟨tk, tv⟩ := t
@@ -485,13 +485,13 @@ theorem sok_expr (e : X) : SOK ty (.expr e) := by
           · subst h0; exact ⟨("SEMI", ";"), rest, rfl, by decide⟩
           · subst h2; exact ⟨t2, r2 ++ ("SEMI", ";") :: rest, by simp, hne⟩
         obtain ⟨t2, r2, he2, hne⟩ := h2
-        have hs1 : SeesT ty s (("ID", tv) :: t2 :: r2) := by simpa [hfl, he2] using hs0
+        have hs1 : SeesT env s (("ID", tv) :: t2 :: r2) := by simpa [hfl, he2] using hs0
         obtain ⟨s1, hs1', hi1, heq⟩ := stmt_id_head G s tv t2 r2 hs1 hne
         exact ⟨s1, by simpa [hfl, he2] using hs1', hi1, heq⟩
       · obtain ⟨tk, tv⟩ := t
         simp only at hid ht
         obtain ⟨d1, d2, d3, d4, d5, d6, d7, d8, _⟩ := exprHeads_dispatch tk ht
-        have hs1 : SeesT ty s ((tk, tv) :: (r ++ ("SEMI", ";") :: rest)) := by simpa [hfl] using hs0
+        have hs1 : SeesT env s ((tk, tv) :: (r ++ ("SEMI", ";") :: rest)) := by simpa [hfl] using hs0
         obtain ⟨s1, hs1', hi1, heq⟩ := stmt_head G s tk tv _ hs1 ⟨d7, d8, hid⟩
         refine ⟨s1, by simpa [hfl] using hs1', hi1, ?_⟩
         rw [heq]; simp only [d1, d2, d3, d4, d5, d6, Bool.false_eq_true, ↓reduceIte]
@@ -499,10 +499,10 @@ theorem sok_expr (e : X) : SOK ty (.expr e) := by
     obtain ⟨s2, h2, hs2, hi2⟩ := exprStmt_ok e hwe s1 rest hs1 G (by omega)
     exact ⟨s2, by rw [heq, h2, hi1]; rfl, hs2, by simp only [S.ntoks]; omega⟩
 
-theorem sok_empty : SOK ty .empty := by
+theorem sok_empty : SOK env .empty := by
   intro s rest F _ hs _ hF
   obtain ⟨G, rfl⟩ : ∃ G, F = G + 1 := ⟨F - 1, by simp only [S.fuel] at hF; omega⟩
-  have hs0 : SeesT ty s (("SEMI", ";") :: rest) := by simpa [S.flat] using hs
+  have hs0 : SeesT env s (("SEMI", ";") :: rest) := by simpa [S.flat] using hs
   obtain ⟨s1, hs1, hi1, heq⟩ := stmt_head G s "SEMI" ";" _ hs0 ⟨by decide, by decide, by decide⟩
   obtain ⟨s2, h2, hs2, hi2⟩ := emptyStmt_ok s1 rest hs1 G
   refine ⟨s2, ?_, hs2, by simp only [S.ntoks]; omega⟩
@@ -511,10 +511,10 @@ theorem sok_empty : SOK ty .empty := by
 
 theorem sok_jump_simple (st : S) (k v : String) (cls : Cls)
     (hfl : st.flat = [(k, v), ("SEMI", ";")]) (hval : ∀ n, st.val n = mk cls (tc n) []) (hnt : st.ntoks = 2)
-    (hfu : st.fuel = 3) (hk : k = "BREAK" ∧ cls = .Break ∨ k = "CONTINUE" ∧ cls = .Continue) : SOK ty st := by
+    (hfu : st.fuel = 3) (hk : k = "BREAK" ∧ cls = .Break ∨ k = "CONTINUE" ∧ cls = .Continue) : SOK env st := by
   intro s rest F _ hs _ hF
   obtain ⟨G, rfl⟩ : ∃ G, F = G + 1 := ⟨F - 1, by omega⟩
-  have hs0 : SeesT ty s ((k, v) :: ("SEMI", ";") :: rest) := by simpa [hfl] using hs
+  have hs0 : SeesT env s ((k, v) :: ("SEMI", ";") :: rest) := by simpa [hfl] using hs
   have hkk : k ≠ "CASE" ∧ k ≠ "DEFAULT" ∧ k ≠ "ID" := by
     rcases hk with ⟨rfl, _⟩ | ⟨rfl, _⟩ <;> exact ⟨by decide, by decide, by decide⟩
   obtain ⟨s1, hs1, hi1, heq⟩ := stmt_head G s k v _ hs0 hkk
@@ -531,13 +531,13 @@ theorem sok_jump_simple (st : S) (k v : String) (cls : Cls)
     show pJumpStatement (run G') s1 = _
     simp [pJumpStatement, bnd, h2, h3, pur, tokCoord, tc, hi1]
 
-theorem sok_brk : SOK ty .brk := sok_jump_simple .brk "BREAK" "break" .Break rfl (fun _ => rfl) rfl rfl (.inl ⟨rfl, rfl⟩)
-theorem sok_cont : SOK ty .cont := sok_jump_simple .cont "CONTINUE" "continue" .Continue rfl (fun _ => rfl) rfl rfl (.inr ⟨rfl, rfl⟩)
+theorem sok_brk : SOK env .brk := sok_jump_simple .brk "BREAK" "break" .Break rfl (fun _ => rfl) rfl rfl (.inl ⟨rfl, rfl⟩)
+theorem sok_cont : SOK env .cont := sok_jump_simple .cont "CONTINUE" "continue" .Continue rfl (fun _ => rfl) rfl rfl (.inr ⟨rfl, rfl⟩)
 
-theorem sok_ret_none : SOK ty (.ret none) := by
+theorem sok_ret_none : SOK env (.ret none) := by
   intro s rest F _ hs _ hF
   obtain ⟨G, rfl⟩ : ∃ G, F = G + 2 := ⟨F - 2, by simp only [S.fuel] at hF; omega⟩
-  have hs0 : SeesT ty s (("RETURN", "return") :: ("SEMI", ";") :: rest) := by simpa [S.flat] using hs
+  have hs0 : SeesT env s (("RETURN", "return") :: ("SEMI", ";") :: rest) := by simpa [S.flat] using hs
   obtain ⟨s1, hs1, hi1, heq⟩ := stmt_head (G + 1) s "RETURN" "return" _ hs0 ⟨by decide, by decide, by decide⟩
   obtain ⟨s2, h2, hs2, _, hi2, _⟩ := advance_spec s1 "RETURN" "return" _ hs1
   obtain ⟨s3, h3, hs3, hi3, _⟩ := accept_same s2 "SEMI" ";" rest hs2
@@ -547,13 +547,13 @@ theorem sok_ret_none : SOK ty (.ret none) := by
   show pJumpStatement (run G) s1 = _
   simp [pJumpStatement, bnd, h2, h3, pur, tokCoord, tc, hi1, S.val]
 
-theorem sok_ret_some (e : X) : SOK ty (.ret (some e)) := by
+theorem sok_ret_some (e : X) : SOK env (.ret (some e)) := by
   intro s rest F hwf hs _ hF
   cases hwf with
   | retSome _ hwe =>
     obtain ⟨G, rfl⟩ : ∃ G, F = G + 2 := ⟨F - 2, by simp only [S.fuel] at hF; omega⟩
     simp only [S.fuel] at hF
-    have hs0 : SeesT ty s (("RETURN", "return") :: (e.flat ++ ("SEMI", ";") :: rest)) := by simpa [S.flat] using hs
+    have hs0 : SeesT env s (("RETURN", "return") :: (e.flat ++ ("SEMI", ";") :: rest)) := by simpa [S.flat] using hs
     obtain ⟨s1, hs1, hi1, heq⟩ := stmt_head (G + 1) s "RETURN" "return" _ hs0 ⟨by decide, by decide, by decide⟩
     obtain ⟨s2, h2, hs2, _, hi2, _⟩ := advance_spec s1 "RETURN" "return" _ hs1
     obtain ⟨t, r, hfl, ht, _⟩ := FullExpr.flat_heads hwe
@@ -578,23 +578,23 @@ theorem stopX_rparen : StopX "RPAREN" := ⟨⟨⟨⟨by decide, by decide⟩, by
 
 /-- `( X )` after `if` / `while` -/
 theorem paren_cond (c : X) (hwc : WFX 0 c) (s : PState) (rest : List Tk) (F : Nat) (hF : c.fuel ≤ F)
-    (hs : SeesT ty s (("LPAREN", "(") :: (c.flat ++ ("RPAREN", ")") :: rest))) :
+    (hs : SeesT env s (("LPAREN", "(") :: (c.flat ++ ("RPAREN", ")") :: rest))) :
     ∃ s1 s2 s3, expect "LPAREN" s = .ok ⟨"LPAREN", "(", s.idx⟩ s1 ∧
       run F .expression s1 = .ok (c.val (s.idx + 1)) s2 ∧
       expect "RPAREN" s2 = .ok ⟨"RPAREN", ")", s.idx + 1 + c.ntoks⟩ s3 ∧
-      SeesT ty s3 rest ∧ s3.idx = s.idx + 1 + c.ntoks + 1 := by
+      SeesT env s3 rest ∧ s3.idx = s.idx + 1 + c.ntoks + 1 := by
   obtain ⟨s1, h1, hs1, hi1⟩ := expect_same s "LPAREN" "(" _ hs
   obtain ⟨s2, h2, hs2, hi2⟩ := parse_full c hwc s1 ("RPAREN", ")") rest stopX_rparen hs1 F hF
   obtain ⟨s3, h3, hs3, hi3⟩ := expect_same s2 "RPAREN" ")" rest hs2
   refine ⟨s1, s2, s3, h1, by rw [h2, hi1], by rw [h3]; congr 2; omega, hs3, by omega⟩
 
-theorem sok_ifThen (c : X) (t : S) (iht : SOK ty t) : SOK ty (.ifThen c t) := by
+theorem sok_ifThen (c : X) (t : S) (iht : SOK env t) : SOK env (.ifThen c t) := by
   intro s rest F hwf hs hel hF
   cases hwf with
   | ifThen _ _ hwc hwt =>
     obtain ⟨G, rfl⟩ : ∃ G, F = G + 2 := ⟨F - 2, by simp only [S.fuel] at hF; omega⟩
     simp only [S.fuel] at hF
-    have hs0 : SeesT ty s (("IF", "if") :: ("LPAREN", "(") :: (c.flat ++ ("RPAREN", ")") :: (t.flat ++ rest))) := by
+    have hs0 : SeesT env s (("IF", "if") :: ("LPAREN", "(") :: (c.flat ++ ("RPAREN", ")") :: (t.flat ++ rest))) := by
       simpa [S.flat, List.append_assoc] using hs
     obtain ⟨s1, hs1, hi1, heq⟩ := stmt_head (G + 1) s "IF" "if" _ hs0 ⟨by decide, by decide, by decide⟩
     obtain ⟨s2, h2, hs2, _, hi2, _⟩ := advance_spec s1 "IF" "if" _ hs1
@@ -612,13 +612,13 @@ theorem sok_ifThen (c : X) (t : S) (iht : SOK ty t) : SOK ty (.ifThen c t) := by
     simp [pSelectionStatement, bnd, h2, h3, h4, h5, h6, h7, pur, tokCoord, tc, hi1, S.val]
 
 
-theorem sok_ifElse (c : X) (t f : S) (iht : SOK ty t) (ihf : SOK ty f) : SOK ty (.ifElse c t f) := by
+theorem sok_ifElse (c : X) (t f : S) (iht : SOK env t) (ihf : SOK env f) : SOK env (.ifElse c t f) := by
   intro s rest F hwf hs hel hF
   cases hwf with
   | ifElse _ _ _ hwc hwt hclosed hwf' =>
     obtain ⟨G, rfl⟩ : ∃ G, F = G + 2 := ⟨F - 2, by simp only [S.fuel] at hF; omega⟩
     simp only [S.fuel] at hF
-    have hs0 : SeesT ty s (("IF", "if") :: ("LPAREN", "(") :: (c.flat ++ ("RPAREN", ")") ::
+    have hs0 : SeesT env s (("IF", "if") :: ("LPAREN", "(") :: (c.flat ++ ("RPAREN", ")") ::
         (t.flat ++ ("ELSE", "else") :: (f.flat ++ rest)))) := by
       simpa [S.flat, List.append_assoc] using hs
     obtain ⟨s1, hs1, hi1, heq⟩ := stmt_head (G + 1) s "IF" "if" _ hs0 ⟨by decide, by decide, by decide⟩
@@ -637,13 +637,13 @@ theorem sok_ifElse (c : X) (t f : S) (iht : SOK ty t) (ihf : SOK ty f) : SOK ty 
     show pSelectionStatement (run G) s1 = _
     simp [pSelectionStatement, bnd, h2, h3, h4, h5, h6, h7, h8, pur, tokCoord, tc, hi1, S.val]
 
-theorem sok_while (c : X) (b : S) (ihb : SOK ty b) : SOK ty (.while_ c b) := by
+theorem sok_while (c : X) (b : S) (ihb : SOK env b) : SOK env (.while_ c b) := by
   intro s rest F hwf hs hel hF
   cases hwf with
   | while_ _ _ hwc hwb =>
     obtain ⟨G, rfl⟩ : ∃ G, F = G + 2 := ⟨F - 2, by simp only [S.fuel] at hF; omega⟩
     simp only [S.fuel] at hF
-    have hs0 : SeesT ty s (("WHILE", "while") :: ("LPAREN", "(") :: (c.flat ++ ("RPAREN", ")") :: (b.flat ++ rest))) := by
+    have hs0 : SeesT env s (("WHILE", "while") :: ("LPAREN", "(") :: (c.flat ++ ("RPAREN", ")") :: (b.flat ++ rest))) := by
       simpa [S.flat, List.append_assoc] using hs
     obtain ⟨s1, hs1, hi1, heq⟩ := stmt_head (G + 1) s "WHILE" "while" _ hs0 ⟨by decide, by decide, by decide⟩
     obtain ⟨s2, h2, hs2, _, hi2, _⟩ := advance_spec s1 "WHILE" "while" _ hs1
@@ -658,13 +658,13 @@ theorem sok_while (c : X) (b : S) (ihb : SOK ty b) : SOK ty (.while_ c b) := by
     show pIterationStatement (run G) s1 = _
     simp [pIterationStatement, bnd, h2, h3, h4, h5, h6, pur, tokCoord, tc, hi1, S.val]
 
-theorem sok_doWhile (b : S) (c : X) (ihb : SOK ty b) : SOK ty (.doWhile b c) := by
+theorem sok_doWhile (b : S) (c : X) (ihb : SOK env b) : SOK env (.doWhile b c) := by
   intro s rest F hwf hs _ hF
   cases hwf with
   | doWhile _ _ hwb hwc =>
     obtain ⟨G, rfl⟩ : ∃ G, F = G + 2 := ⟨F - 2, by simp only [S.fuel] at hF; omega⟩
     simp only [S.fuel] at hF
-    have hs0 : SeesT ty s (("DO", "do") :: (b.flat ++ ("WHILE", "while") :: ("LPAREN", "(") ::
+    have hs0 : SeesT env s (("DO", "do") :: (b.flat ++ ("WHILE", "while") :: ("LPAREN", "(") ::
         (c.flat ++ ("RPAREN", ")") :: ("SEMI", ";") :: rest))) := by
       simpa [S.flat, List.append_assoc] using hs
     obtain ⟨s1, hs1, hi1, heq⟩ := stmt_head (G + 1) s "DO" "do" _ hs0 ⟨by decide, by decide, by decide⟩
@@ -695,16 +695,16 @@ theorem SL.head_not_else (l : SL) (hwl : WFSL l) (rest : List Tk) :
     have := (stmtHeads_facts t.1 hth).2.2.1
     rw [h.1] at this; exact this
 
-theorem slok_nil : SLOK ty .nil := by
+theorem slok_nil : SLOK env .nil := by
   intro acc s rest F _ hs hF
   obtain ⟨G, rfl⟩ : ∃ G, F = G + 1 := ⟨F - 1, by simp only [SL.fuel] at hF; omega⟩
-  have hs0 : SeesT ty s (("RBRACE", "}") :: rest) := by simpa [SL.flat] using hs
+  have hs0 : SeesT env s (("RBRACE", "}") :: rest) := by simpa [SL.flat] using hs
   obtain ⟨s1, h1, hs1, hi1, _⟩ := peekType_spec s _ hs0
   refine ⟨s1, ?_, hs1, by simp only [SL.ntoks]; omega⟩
   show pBlockItemListLoop (run G) acc s = _
   simp [pBlockItemListLoop, bnd, h1, pur, SL.vals]
 
-theorem slok_cons (st : S) (r : SL) (ihs : SOK ty st) (ihr : SLOK ty r) : SLOK ty (.cons st r) := by
+theorem slok_cons (st : S) (r : SL) (ihs : SOK env st) (ihr : SLOK env r) : SLOK env (.cons st r) := by
   intro acc s rest F hwf hs hF
   cases hwf with
   | cons _ _ hws hwr =>
@@ -712,12 +712,12 @@ theorem slok_cons (st : S) (r : SL) (ihs : SOK ty st) (ihr : SLOK ty r) : SLOK t
     simp only [SL.fuel] at hF
     obtain ⟨t, r', hfl, hth⟩ := S.head st hws
     obtain ⟨_, _, _, hnr, hnd, _⟩ := stmtHeads_facts t.1 hth
-    have hs0 : SeesT ty s (st.flat ++ (r.flat ++ ("RBRACE", "}") :: rest)) := by
+    have hs0 : SeesT env s (st.flat ++ (r.flat ++ ("RBRACE", "}") :: rest)) := by
       simpa [SL.flat, List.append_assoc] using hs
-    have hs0' : SeesT ty s ((t.1, t.2) :: (r' ++ (r.flat ++ ("RBRACE", "}") :: rest))) := by simpa [hfl] using hs0
+    have hs0' : SeesT env s ((t.1, t.2) :: (r' ++ (r.flat ++ ("RBRACE", "}") :: rest))) := by simpa [hfl] using hs0
     obtain ⟨s1, h1, hs1, hi1, _⟩ := peekType_spec s _ hs0'
     obtain ⟨s2, h2, hs2, hi2, _⟩ := peekType_spec s1 _ hs1
-    have hs2' : SeesT ty s2 (st.flat ++ (r.flat ++ ("RBRACE", "}") :: rest)) := by simpa [hfl] using hs2
+    have hs2' : SeesT env s2 (st.flat ++ (r.flat ++ ("RBRACE", "}") :: rest)) := by simpa [hfl] using hs2
     obtain ⟨s3, h3, hs3, hi3⟩ := ihs s2 _ G hws hs2' (fun _ => SL.head_not_else r hwr rest) (by omega)
     obtain ⟨s4, h4, hs4, hi4⟩ := ihr (acc ++ [st.val s2.idx]) s3 rest G hwr hs3 (by omega)
     refine ⟨s4, ?_, hs4, by simp only [SL.ntoks]; omega⟩
@@ -730,13 +730,13 @@ theorem slok_cons (st : S) (r : SL) (ihs : SOK ty st) (ihr : SLOK ty r) : SLOK t
     show pBlockItemListLoop (run G) acc s = _
     simp [pBlockItemListLoop, bnd, h1, h2, startsDeclaration, pur, hnd, hnr, h3, h4, SL.vals, hv']
 
-theorem sok_block (items : SL) (ih : SLOK ty items) : SOK ty (.block items) := by
+theorem sok_block (items : SL) (ih : SLOK env items) : SOK env (.block items) := by
   intro s rest F hwf hs _ hF
   cases hwf with
   | block _ hwi =>
     obtain ⟨G, rfl⟩ : ∃ G, F = G + 2 := ⟨F - 2, by simp only [S.fuel] at hF; have := hF; omega⟩
     simp only [S.fuel] at hF
-    have hs0 : SeesT ty s (("LBRACE", "{") :: (items.flat ++ ("RBRACE", "}") :: rest)) := by
+    have hs0 : SeesT env s (("LBRACE", "{") :: (items.flat ++ ("RBRACE", "}") :: rest)) := by
       simpa [S.flat, List.append_assoc] using hs
     obtain ⟨s1, hs1, hi1, heq⟩ := stmt_head (G + 1) s "LBRACE" "{" _ hs0 ⟨by decide, by decide, by decide⟩
     obtain ⟨s2, h2, hs2, hi2⟩ := expect_same s1 "LBRACE" "{" _ hs1
@@ -744,7 +744,7 @@ theorem sok_block (items : SL) (ih : SLOK ty items) : SOK ty (.block items) := b
     simp only [beq_self_eq_true, ↓reduceIte]
     cases items with
     | nil =>
-      have hs2' : SeesT ty s2 (("RBRACE", "}") :: rest) := by simpa [SL.flat] using hs2
+      have hs2' : SeesT env s2 (("RBRACE", "}") :: rest) := by simpa [SL.flat] using hs2
       obtain ⟨s3, h3, hs3, hi3, _⟩ := accept_same s2 "RBRACE" "}" rest hs2'
       refine ⟨s3, ?_, hs3, by simp only [S.ntoks, SL.ntoks]; omega⟩
       show pCompoundStatement (run G) s1 = _
@@ -768,24 +768,24 @@ theorem sok_block (items : SL) (ih : SLOK ty items) : SOK ty (.block items) := b
 /-! ## labels and `switch` -/
 
 /-- `_parse_statement` on `case` / `default` -/
-theorem stmt_label_head (F : Nat) (s : PState) (k v : String) (toks : List Tk) (hs : SeesT ty s ((k, v) :: toks))
+theorem stmt_label_head (F : Nat) (s : PState) (k v : String) (toks : List Tk) (hs : SeesT env s ((k, v) :: toks))
     (hk : k = "CASE" ∨ k = "DEFAULT") :
-    ∃ s1, SeesT ty s1 ((k, v) :: toks) ∧ s1.idx = s.idx ∧ run (F + 1) .statement s = run F .labeledStatement s1 := by
+    ∃ s1, SeesT env s1 ((k, v) :: toks) ∧ s1.idx = s.idx ∧ run (F + 1) .statement s = run F .labeledStatement s1 := by
   obtain ⟨s1, h1, hs1, hi1, _⟩ := peekType_spec s _ hs
   refine ⟨s1, hs1, hi1, ?_⟩
   show pStatement (run F) s = _
   rcases hk with rfl | rfl <;> simp [pStatement, bnd, h1]
 
 /-- the statement after a label -/
-theorem label_body (st : S) (h : SOK ty st) (tok : PTok) (s : PState) (rest : List Tk) (F : Nat) (hwf : WFS st)
-    (hs : SeesT ty s (st.flat ++ rest)) (hel : st.openIf = true → ∀ k v r, rest = (k, v) :: r → k ≠ "ELSE")
+theorem label_body (st : S) (h : SOK env st) (tok : PTok) (s : PState) (rest : List Tk) (F : Nat) (hwf : WFS st)
+    (hs : SeesT env s (st.flat ++ rest)) (hel : st.openIf = true → ∀ k v r, rest = (k, v) :: r → k ≠ "ELSE")
     (hF : st.fuel + 1 ≤ F) :
-    ∃ s', labelBody (run F) tok s = .ok (st.val s.idx) s' ∧ SeesT ty s' rest ∧ s'.idx = s.idx + st.ntoks := by
+    ∃ s', labelBody (run F) tok s = .ok (st.val s.idx) s' ∧ SeesT env s' rest ∧ s'.idx = s.idx + st.ntoks := by
   obtain ⟨t, r, hfl, hth⟩ := S.head st hwf
   obtain ⟨_, _, _, _, _, hstart⟩ := stmtHeads_facts t.1 hth
-  have hs0 : SeesT ty s ((t.1, t.2) :: (r ++ rest)) := by simpa [hfl] using hs
+  have hs0 : SeesT env s ((t.1, t.2) :: (r ++ rest)) := by simpa [hfl] using hs
   -- `_starts_statement()` is true, in a state that still sees the statement
-  have hst : ∃ s1, startsStatement s = .ok true s1 ∧ SeesT ty s1 (st.flat ++ rest) ∧ s1.idx = s.idx := by
+  have hst : ∃ s1, startsStatement s = .ok true s1 ∧ SeesT env s1 (st.flat ++ rest) ∧ s1.idx = s.idx := by
     obtain ⟨s1, h1, hs1, hi1, _⟩ := peekType_spec s _ hs0
     rcases hstart with hss | hse
     · exact ⟨s1, by simp [startsStatement, bnd, h1, pur, hss], by simpa [hfl] using hs1, hi1⟩
@@ -802,13 +802,13 @@ theorem label_body (st : S) (h : SOK ty st) (tok : PTok) (s : PState) (rest : Li
 
 theorem stopC_colon : StopC "COLON" := ⟨⟨by decide, by decide⟩, by decide⟩
 
-theorem sok_case (e : X) (st : S) (ih : SOK ty st) : SOK ty (.case_ e st) := by
+theorem sok_case (e : X) (st : S) (ih : SOK env st) : SOK env (.case_ e st) := by
   intro s rest F hwf hs hel hF
   cases hwf with
   | case_ _ _ hwe hws =>
     obtain ⟨G, rfl⟩ : ∃ G, F = G + 2 := ⟨F - 2, by simp only [S.fuel] at hF; omega⟩
     simp only [S.fuel] at hF
-    have hs0 : SeesT ty s (("CASE", "case") :: (e.flat ++ ("COLON", ":") :: (st.flat ++ rest))) := by
+    have hs0 : SeesT env s (("CASE", "case") :: (e.flat ++ ("COLON", ":") :: (st.flat ++ rest))) := by
       simpa [S.flat, List.append_assoc] using hs
     obtain ⟨s1, hs1, hi1, heq⟩ := stmt_label_head (G + 1) s "CASE" "case" _ hs0 (.inl rfl)
     obtain ⟨s2, h2, hs2, hi2, _⟩ := peekType_spec s1 _ hs1
@@ -826,13 +826,13 @@ theorem sok_case (e : X) (st : S) (ih : SOK ty st) : SOK ty (.case_ e st) := by
     show pLabeledStatement (run G) s1 = _
     simp [pLabeledStatement, bnd, h2, h3, h4, h5, h6, pur, tokCoord, tc, hi1, hi2, S.val]
 
-theorem sok_default (st : S) (ih : SOK ty st) : SOK ty (.default_ st) := by
+theorem sok_default (st : S) (ih : SOK env st) : SOK env (.default_ st) := by
   intro s rest F hwf hs hel hF
   cases hwf with
   | default_ _ hws =>
     obtain ⟨G, rfl⟩ : ∃ G, F = G + 2 := ⟨F - 2, by simp only [S.fuel] at hF; omega⟩
     simp only [S.fuel] at hF
-    have hs0 : SeesT ty s (("DEFAULT", "default") :: ("COLON", ":") :: (st.flat ++ rest)) := by
+    have hs0 : SeesT env s (("DEFAULT", "default") :: ("COLON", ":") :: (st.flat ++ rest)) := by
       simpa [S.flat, List.append_assoc] using hs
     obtain ⟨s1, hs1, hi1, heq⟩ := stmt_label_head (G + 1) s "DEFAULT" "default" _ hs0 (.inr rfl)
     obtain ⟨s2, h2, hs2, hi2, _⟩ := peekType_spec s1 _ hs1
@@ -928,13 +928,13 @@ theorem fixSwitch_sval (co : Option Coord) (cond : Val) (b : S) (n : Nat) (s : P
   | goto_ _ => exact fixSwitch_other co cond _ rfl s
   | label _ _ => exact fixSwitch_other co cond _ rfl s
 
-theorem sok_switch (c : X) (b : S) (ihb : SOK ty b) : SOK ty (.switch_ c b) := by
+theorem sok_switch (c : X) (b : S) (ihb : SOK env b) : SOK env (.switch_ c b) := by
   intro s rest F hwf hs hel hF
   cases hwf with
   | switch_ _ _ hwc hwb =>
     obtain ⟨G, rfl⟩ : ∃ G, F = G + 2 := ⟨F - 2, by simp only [S.fuel] at hF; omega⟩
     simp only [S.fuel] at hF
-    have hs0 : SeesT ty s (("SWITCH", "switch") :: ("LPAREN", "(") :: (c.flat ++ ("RPAREN", ")") :: (b.flat ++ rest))) := by
+    have hs0 : SeesT env s (("SWITCH", "switch") :: ("LPAREN", "(") :: (c.flat ++ ("RPAREN", ")") :: (b.flat ++ rest))) := by
       simpa [S.flat, List.append_assoc] using hs
     obtain ⟨s1, hs1, hi1, heq⟩ := stmt_head (G + 1) s "SWITCH" "switch" _ hs0 ⟨by decide, by decide, by decide⟩
     obtain ⟨s2, h2, hs2, _, hi2, _⟩ := advance_spec s1 "SWITCH" "switch" _ hs1
@@ -959,8 +959,8 @@ theorem stopX_semi' : StopX ("SEMI", ";").1 := stopX_semi
 
 /-- an optional expression followed by `;` or `)` -/
 theorem exprOpt_ok (o : Option X) (hw : OWF o) (s : PState) (stop : Tk) (rest : List Tk)
-    (hstop : stop.1 = "SEMI" ∨ stop.1 = "RPAREN") (hs : SeesT ty s (oflat o ++ stop :: rest)) (F : Nat) (hF : ofuel o ≤ F) :
-    ∃ s', exprOpt (run F) s = .ok (oval s.idx o) s' ∧ SeesT ty s' (stop :: rest) ∧ s'.idx = s.idx + ont o := by
+    (hstop : stop.1 = "SEMI" ∨ stop.1 = "RPAREN") (hs : SeesT env s (oflat o ++ stop :: rest)) (F : Nat) (hF : ofuel o ≤ F) :
+    ∃ s', exprOpt (run F) s = .ok (oval s.idx o) s' ∧ SeesT env s' (stop :: rest) ∧ s'.idx = s.idx + ont o := by
   have hsx : StopX stop.1 := by
     rcases hstop with h | h
     · rw [h]; exact stopX_semi
@@ -968,18 +968,18 @@ theorem exprOpt_ok (o : Option X) (hw : OWF o) (s : PState) (stop : Tk) (rest : 
   cases o with
   | none =>
     obtain ⟨k, v⟩ := stop
-    have hs0 : SeesT ty s ((k, v) :: rest) := by simpa [oflat] using hs
+    have hs0 : SeesT env s ((k, v) :: rest) := by simpa [oflat] using hs
     obtain ⟨s1, h1, hs1, hi1, _⟩ := peekType_spec s _ hs0
     have hns : inSet (some k) startsExpressionSet = false := by
       simp only at hstop; rcases hstop with h | h <;> rw [h] <;> decide
     exact ⟨s1, by simp [exprOpt, startsExpression, bnd, h1, hns, pur, oval], hs1, by simpa [ont] using hi1⟩
   | some e =>
     have hwe := hw e rfl
-    have hs0 : SeesT ty s (e.flat ++ stop :: rest) := by simpa [oflat] using hs
+    have hs0 : SeesT env s (e.flat ++ stop :: rest) := by simpa [oflat] using hs
     obtain ⟨t, r, hfl, hst⟩ := head_starts_expr hwe
-    have hs0' : SeesT ty s (t :: (r ++ stop :: rest)) := by simpa [hfl] using hs0
+    have hs0' : SeesT env s (t :: (r ++ stop :: rest)) := by simpa [hfl] using hs0
     obtain ⟨s1, h1, hs1, hi1, _⟩ := peekType_spec s _ hs0'
-    have hs1' : SeesT ty s1 (e.flat ++ stop :: rest) := by simpa [hfl] using hs1
+    have hs1' : SeesT env s1 (e.flat ++ stop :: rest) := by simpa [hfl] using hs1
     obtain ⟨s2, h2, hs2, hi2⟩ := parse_full e hwe s1 stop rest hsx hs1' F (by simpa [ofuel] using hF)
     rw [hi1] at h2
     exact ⟨s2, by simp [exprOpt, startsExpression, bnd, h1, hst, h2, oval, pur], hs2, by simp only [ont]; omega⟩
@@ -993,13 +993,13 @@ theorem oflat_semi_head (o : Option X) (hw : OWF o) (rest : List Tk) :
     obtain ⟨t, r, hfl, ht, _⟩ := FullExpr.flat_heads (hw e rfl)
     exact ⟨t, r ++ ("SEMI", ";") :: rest, by simp [oflat, hfl], (FullExpr.heads_facts _ ht).1⟩
 
-theorem sok_for (i c n : Option X) (b : S) (ihb : SOK ty b) : SOK ty (.for_ i c n b) := by
+theorem sok_for (i c n : Option X) (b : S) (ihb : SOK env b) : SOK env (.for_ i c n b) := by
   intro s rest F hwf hs hel hF
   cases hwf with
   | for_ _ _ _ _ hwi hwc hwn hwb =>
     obtain ⟨G, rfl⟩ : ∃ G, F = G + 2 := ⟨F - 2, by simp only [S.fuel] at hF; omega⟩
     simp only [S.fuel] at hF
-    have hs0 : SeesT ty s (("FOR", "for") :: ("LPAREN", "(") :: (oflat i ++ ("SEMI", ";") :: (oflat c ++ ("SEMI", ";") ::
+    have hs0 : SeesT env s (("FOR", "for") :: ("LPAREN", "(") :: (oflat i ++ ("SEMI", ";") :: (oflat c ++ ("SEMI", ";") ::
         (oflat n ++ ("RPAREN", ")") :: (b.flat ++ rest))))) := by
       simpa [S.flat, List.append_assoc] using hs
     obtain ⟨s1, hs1, hi1, heq⟩ := stmt_head (G + 1) s "FOR" "for" _ hs0 ⟨by decide, by decide, by decide⟩
@@ -1028,10 +1028,10 @@ theorem sok_for (i c n : Option X) (b : S) (ihb : SOK ty b) : SOK ty (.for_ i c 
     simp [pIterationStatement, bnd, h2, h3, startsDeclaration, h4, hnd, h5, h6, h7, h8, h9, h10, h11, pur, tokCoord, tc,
       hi1, S.val]
 
-theorem sok_goto (x : String) : SOK ty (.goto_ x) := by
+theorem sok_goto (x : String) : SOK env (.goto_ x) := by
   intro s rest F _ hs _ hF
   obtain ⟨G, rfl⟩ : ∃ G, F = G + 2 := ⟨F - 2, by simp only [S.fuel] at hF; omega⟩
-  have hs0 : SeesT ty s (("GOTO", "goto") :: ("ID", x) :: ("SEMI", ";") :: rest) := by simpa [S.flat] using hs
+  have hs0 : SeesT env s (("GOTO", "goto") :: ("ID", x) :: ("SEMI", ";") :: rest) := by simpa [S.flat] using hs
   obtain ⟨s1, hs1, hi1, heq⟩ := stmt_head (G + 1) s "GOTO" "goto" _ hs0 ⟨by decide, by decide, by decide⟩
   obtain ⟨s2, h2, hs2, _, hi2, _⟩ := advance_spec s1 "GOTO" "goto" _ hs1
   obtain ⟨s3, h3, hs3, hi3⟩ := expect_same s2 "ID" x _ hs2
@@ -1044,8 +1044,8 @@ theorem sok_goto (x : String) : SOK ty (.goto_ x) := by
 
 /-- `_parse_statement` on `identifier :` -/
 theorem stmt_idlabel_head (F : Nat) (s : PState) (x : String) (toks : List Tk)
-    (hs : SeesT ty s (("ID", x) :: ("COLON", ":") :: toks)) :
-    ∃ s1, SeesT ty s1 (("ID", x) :: ("COLON", ":") :: toks) ∧ s1.idx = s.idx ∧
+    (hs : SeesT env s (("ID", x) :: ("COLON", ":") :: toks)) :
+    ∃ s1, SeesT env s1 (("ID", x) :: ("COLON", ":") :: toks) ∧ s1.idx = s.idx ∧
       run (F + 1) .statement s = run F .labeledStatement s1 := by
   obtain ⟨s1, h1, hs1, hi1, _⟩ := peekType_spec s _ hs
   obtain ⟨s2, hp2, hs2, _, hi2, _⟩ := peekK_spec 1 s1 _ ("COLON", ":") hs1 rfl
@@ -1054,13 +1054,13 @@ theorem stmt_idlabel_head (F : Nat) (s : PState) (x : String) (toks : List Tk)
   simp only [pStatement, bnd, h1, List.head?_cons, Option.map_some, andM, pur]
   simp [pure_bind_P, peek2Is, peekType2, bnd, hp2, pur]
 
-theorem sok_label (x : String) (st : S) (ih : SOK ty st) : SOK ty (.label x st) := by
+theorem sok_label (x : String) (st : S) (ih : SOK env st) : SOK env (.label x st) := by
   intro s rest F hwf hs hel hF
   cases hwf with
   | label _ _ hws =>
     obtain ⟨G, rfl⟩ : ∃ G, F = G + 2 := ⟨F - 2, by simp only [S.fuel] at hF; omega⟩
     simp only [S.fuel] at hF
-    have hs0 : SeesT ty s (("ID", x) :: ("COLON", ":") :: (st.flat ++ rest)) := by
+    have hs0 : SeesT env s (("ID", x) :: ("COLON", ":") :: (st.flat ++ rest)) := by
       simpa [S.flat, List.append_assoc] using hs
     obtain ⟨s1, hs1, hi1, heq⟩ := stmt_idlabel_head (G + 1) s x _ hs0
     obtain ⟨s2, h2, hs2, hi2, _⟩ := peekType_spec s1 _ hs1
@@ -1077,7 +1077,7 @@ theorem sok_label (x : String) (st : S) (ih : SOK ty st) : SOK ty (.label x st) 
     simp [pLabeledStatement, bnd, h2, h3, h5, h6, pur, tokCoord, tc, hi1, hi2, S.val]
 
 mutual
-theorem all_s : ∀ st : S, SOK ty st
+theorem all_s : ∀ st : S, SOK env st
   | .expr e => sok_expr e
   | .empty => sok_empty
   | .block items => sok_block items (all_sl items)
@@ -1095,7 +1095,7 @@ theorem all_s : ∀ st : S, SOK ty st
   | .for_ i c n b => sok_for i c n b (all_s b)
   | .goto_ x => sok_goto x
   | .label x st => sok_label x st (all_s st)
-theorem all_sl : ∀ l : SL, SLOK ty l
+theorem all_sl : ∀ l : SL, SLOK env l
   | .nil => slok_nil
   | .cons st r => slok_cons st r (all_s st) (all_sl r)
 end
@@ -1104,9 +1104,9 @@ end
 any nesting), from every parser state that sees its tokens (followed, if `st` ends with an
 `else`-less `if`, by something other than `else`), `_parse_statement` returns `st.val` and consumes
 exactly the tokens of `st`. -/
-theorem parse_stmt (st : S) (hwf : WFS st) (s : PState) (rest : List Tk) (hs : SeesT ty s (st.flat ++ rest))
+theorem parse_stmt (st : S) (hwf : WFS st) (s : PState) (rest : List Tk) (hs : SeesT env s (st.flat ++ rest))
     (hel : st.openIf = true → ∀ k v r, rest = (k, v) :: r → k ≠ "ELSE") (F : Nat) (hF : st.fuel ≤ F) :
-    ∃ s', run F .statement s = .ok (st.val s.idx) s' ∧ SeesT ty s' rest ∧ s'.idx = s.idx + st.ntoks :=
+    ∃ s', run F .statement s = .ok (st.val s.idx) s' ∧ SeesT env s' rest ∧ s'.idx = s.idx + st.ntoks :=
   all_s st s rest F hwf hs hel hF
 
 theorem ofuel_linear (o : Option X) : ofuel o ≤ 13 * ont o := by
